@@ -1,36 +1,76 @@
+"""C11 (and the C02 obligations riding on it): etl::chrono calendar types.
+No loops anywhere: every query ranges over the whole domain of its symbolic inputs. What is enumerated by the runner are
+case splits of a lemma that together cover the domain (STEPCASE), 400-year eras (ERA) and, for the two direct comparisons
+of a composed calendar computation with libstdc++, a window of years (YWIN) / days (ZWIN)."""
 import os, re
 PROPERTIES = ['C11', 'C02']
 BOUNDS = {
-    'quick': 'no loops; every query ranges over the whole domain: sys_days -12687428..11248737 (years -32767..32767), year every int16, month/day 0..254, weekday 0..255, deltas full int32',
-    'thorough': 'as quick, plus direct round trips split into 164 eras of 146097 days / 400 years',
+    'quick': 'whole domain per query: sys_days -12687428..11248737 (= years -32767..32767, 23936166 days) for the step lemmas L1 (civil_from_days) and L3 '
+             '(days_from_civil, 4 cases), validity/ok() of every produced date, weekday step + == std on all int32 days; year every int16 value, month/day 0..254, '
+             'weekday 0..255, index 0..255, months/years/days deltas full int32 (restricted to results with year in -32767..32767 where the standard requires it). '
+             'Restricted in quick: sys_days{ymd} == std, local_days{ymd}, weekday-of-date composition and year_month_weekday::ok index 5: era 4 (years 1600..1999); '
+             'weekday-of-date / ymw::ok directly against std: years 1954..1985; year_month_day{local_days}: |z| < 32768',
+    'thorough': 'as quick, plus: direct round trip sys_days -> ymd -> sys_days on all 164 eras (every day of the range), ymd -> sys_days -> ymd on eras -82,-1,0,4,81, '
+                'year_month_day{sys_days} == std::chrono directly on era 4, sys_days{ymd} == std on eras -82,-41,-1,0,4,41,81, local_days{ymd}, weekday-of-date composition and '
+                'year_month_weekday::ok on the whole range, year_month_day{local_days} on the whole range, std windows 1842..2097',
 }
-ASSUMPTIONS = []
+ASSUMPTIONS = [
+    'C11: month(unsigned) and day(unsigned) are given values < 255 (their documented TETL_PRECONDITION); weekday(unsigned) values <= 255; year(int) values in int16',
+    'C11: arithmetic of year_month, year_month_day, year_month_day_last, year_month_weekday: operands ok() (year -32767..32767, month 1..12; day, weekday index arbitrary), '
+    'delta full int32 but restricted to results whose year lies in -32767..32767 (outside, the standard leaves the value unspecified); year +- years likewise',
+    'C11: weekday arithmetic: operands ok() (0..7, 7 == Sunday), days full int32; month +- months: any stored value 0..254, months full int32; month - month, weekday - weekday: ok() operands',
+    'C11: year_month_day_last::day() only for ok() operands (unspecified otherwise)',
+    'C11: the Gregorian calendar model in the driver (leap rule, month lengths, successor) is the specification of "dates that exist"; the anchor day numbers were computed '
+    'independently (Python) and are static_assert-ed against libstdc++ for the two range ends',
+    'C11: year_month_weekday::ok() for index 5 and weekday-of-date are checked compositionally against etl\'s own sys_days{ymd} (itself pinned down by L3 + anchors) on the whole range, '
+    'and against libstdc++ directly only on a window of years',
+    'C11: libstdc++ 12 <chrono> compiled through the same clang -> IR -> C pipeline is the oracle for "as std does" (its days/months/years Rep is int64)',
+    'C11 not covered (declared in tetl but never defined, cannot be linked): year_month_weekday_last (all members), year_month_weekday::operator+=/-=, '
+    'year_month_weekday(sys_days), year_month_weekday::operator sys_days, year_month_day_last::operator sys_days/local_days; year_month - year_month does not exist',
+]
 HERE = os.path.dirname(os.path.abspath(__file__))
 ALL = re.findall(r'\bQ\s+(q_[A-Za-z0-9_]+)\s*\(', open(os.path.join(HERE, 'driver.cpp')).read())
-STEP = ['q_civil_step', 'q_days_step']
-ERASPLIT = ['q_roundtrip_era', 'q_roundtrip_ymd_era', 'q_civil_std', 'q_days_std', 'q_days_local', 'q_wd_of_date', 'q_ok_ymw']
-YWIN = ['q_wd_of_date_std', 'q_ok_ymw_std']
+ERAS = list(range(-82, 82))   # 400-year cycles covering years -32800..32799
+SPECIAL = {'q_civil_step', 'q_days_step', 'q_roundtrip_era', 'q_roundtrip_ymd_era', 'q_civil_std', 'q_days_std', 'q_days_local', 'q_civil_local',
+           'q_wd_of_date', 'q_ok_ymw', 'q_wd_of_date_std', 'q_ok_ymw_std'}
+# C02: the UB build of the step lemmas would only repeat the arithmetic of q_civil_valid/q_civil_ok/q_days_range, which call the same two functions on the whole range
+C02_SKIP = {'q_civil_step', 'q_days_step', 'q_roundtrip_era', 'q_roundtrip_ymd_era', 'q_civil_std', 'q_days_std', 'q_wd_of_date_std', 'q_ok_ymw_std'}
+
 
 def queries(tier, prop='C11'):
     ub = prop == 'C02'
+    quick = tier == 'quick'
     out = []
+
     def q(entry, cfg=None, solver='kissat', budget=120):
+        if ub and entry in C02_SKIP:
+            return
         out.append(dict(entry=entry, cfg=cfg or {}, unwind=20, solver=solver, budget=budget, ub=ub, nofunc=ub))
+
+    two = ['kissat', 'cadical']
+    # L1 and L3 (4 cases): whole range, both tiers
+    q('q_civil_step', solver=two, budget=900)
+    for c in (0, 1, 2, 3):
+        q('q_days_step', cfg={'STEPCASE': c}, solver=two, budget=900)
     for e in ALL:
-        if e == 'q_days_step':
-            for c in (0, 1, 2, 3):
-                q(e, cfg={'STEPCASE': c}, solver=['kissat', 'cadical'], budget=900)
-        elif e in STEP:
-            q(e, solver=['kissat', 'cadical'], budget=900)
-        elif e in ERASPLIT:
-            for k in ([4] if tier == 'quick' else [-82, 4, 81]):
-                q(e, cfg={'ERA': k}, budget=300)
-            if e in ('q_wd_of_date', 'q_ok_ymw'): q(e, budget=900)
-        elif e in YWIN:
-            q(e, cfg={'YWIN': 2})
-            q(e, cfg={'YWIN': 16})
-        elif e == 'q_civil_local':
-            q(e, cfg={'ZWIN': 32768}); q(e, cfg={'ZWIN': 1 << 20})
-        else:
+        if e not in SPECIAL:
             q(e)
+    if quick:
+        for e in ('q_days_std', 'q_days_local', 'q_wd_of_date', 'q_ok_ymw'):
+            q(e, cfg={'ERA': 4}, budget=300)
+        q('q_civil_local', cfg={'ZWIN': 32768}, budget=300)
+        for e in ('q_wd_of_date_std', 'q_ok_ymw_std'):
+            q(e, cfg={'YWIN': 16})
+    else:
+        for k in ERAS:
+            q('q_roundtrip_era', cfg={'ERA': k}, budget=600)          # L4
+        for k in (-82, -1, 0, 4, 81):
+            q('q_roundtrip_ymd_era', cfg={'ERA': k}, budget=600)
+        q('q_civil_std', cfg={'ERA': 4}, solver=two, budget=1200)
+        for k in (-82, -41, -1, 0, 4, 41, 81):
+            q('q_days_std', cfg={'ERA': k}, budget=300)
+        for e in ('q_days_local', 'q_wd_of_date', 'q_ok_ymw', 'q_civil_local'):
+            q(e, solver=two, budget=900)
+        for e in ('q_wd_of_date_std', 'q_ok_ymw_std'):
+            q(e, cfg={'YWIN': 128}, budget=300)
     return out
